@@ -14,7 +14,11 @@
    start inversion (InvertStartBySecTruncation), the site captured at the join epoch but converted
    with the start epoch (CaptureAtJoinEpoch) and a conversion memo on the config object that ignores
    the epoch (CacheIgnoresEpoch) and step epochs built through the host's local time zone
-   (LocalTimeEpoch) each break SiteFixed.
+   (LocalTimeEpoch) and a dynamics memo keyed without the location (MemoIgnoresSite) each break
+   SiteFixed.  The site an agent id refers to may change over the life of the process
+   (SiteFromCurrentConfig): for a third of the sites a scenario with the SAME start instant and the same
+   sensor ids at other sites is built first, and in a third of the scenarios a sensor is removed
+   (Scenario.removeSensor) and added again under the same id at another site mid-run.
 3. impl -> spec: REAL scenarios with ground sensors configured in latitude / longitude /
    altitude (public configuration keys), start instants sweeping the second of the minute and
    crossing midnights, steps 2-900 s; in every scenario one or two of the sites are left out of
@@ -165,8 +169,20 @@ def _build_from_objects(cfg):
                     importer_db_path=None, logger=b.logger)
 
 
+def _other_site(site):
+    """Another site for the same agent id: 125 degrees further east, another latitude."""
+    lat, lon, alt = site
+    lon2 = lon + 125.0
+    return (round(5.0 - lat / 2.0, 6), round(lon2 - 360.0 if lon2 > 180.0 else lon2, 6), alt)
+
+
 def _run_sites(task):
     """One REAL scenario, built from validated SensingAgentConfig OBJECTS (one per site).
+
+    Sites flagged `resited`: the same sensor id stood for a facility at ANOTHER site before - a
+    scenario with the SAME start instant and the same ids at other sites is built first in this
+    process.  Sites with readd = r > 0: after r real steps the sensor is removed
+    (Scenario.removeSensor) and added again under the same id at another site (Scenario.addSensor).
 
     Sites flagged `reused` had their config object used before: "scenario A" with another start
     instant is built from the same objects first (ScenarioBuilder converts them at A's start).
@@ -185,6 +201,8 @@ def _run_sites(task):
     dt, nsteps, sites = task["dt"], task["steps"], task["sites"]
     joins = task.get("joins") or [0] * len(sites)
     reused = task.get("reused") or [0] * len(sites)
+    resited = task.get("resited") or [0] * len(sites)
+    readd = task.get("readd") or [0] * len(sites)
     out = {"id": task["id"], "crash": None, "agents": []}
     try:
         cfg = su.base_config(start=start, step=dt, n_steps=nsteps, n_targets=1, n_sensors=len(sites),
@@ -200,6 +218,17 @@ def _run_sites(task):
                                    truth_only=True, model="two_body")
             cfg_a["engines"][0]["sensors"] = [o for o, r in zip(objs, reused) if r]
             _build_from_objects(cfg_a)
+        if any(resited):     # same start instant, same ids, other sites: built (not run) earlier in this process
+            cfg_b = su.base_config(start=start, step=dt, n_steps=1, n_targets=1, n_sensors=1, truth_only=True, model="two_body")
+            others = []
+            for sc, site, rs in zip(sensors, sites, resited):
+                if rs:
+                    sc2 = copy.deepcopy(sc)
+                    lat2, lon2, alt2 = _other_site(site)
+                    sc2["state"] = {"type": "lla", "latitude": lat2, "longitude": lon2, "altitude": alt2}
+                    others.append(SensingAgentConfig(**sc2))
+            cfg_b["engines"][0]["sensors"] = others
+            _build_from_objects(cfg_b)
         late = [(o, sc["id"], site, j, r) for o, sc, site, j, r in zip(objs, sensors, sites, joins, reused) if j > 0]
         first = [(o, sc["id"], site, r) for o, sc, site, j, r in zip(objs, sensors, sites, joins, reused) if j == 0]
         if not first:
@@ -209,10 +238,15 @@ def _run_sites(task):
         app = _build_from_objects(cfg)
         agents = []
 
-        def enrol(agent_id, site, j, r):
+        rs_of = {sc["id"]: int(bool(rs)) for sc, rs in zip(sensors, resited)}
+        all_recs = []
+
+        def enrol(agent_id, site, j, r, rs=None):
             a = _site_record(app.sensor_agents[agent_id], site, agent_id, start)
             a["join"] = a["rec"]["join"] = j
             a["rec"]["reused"] = int(bool(r))
+            a["rec"]["resited"] = rs_of[agent_id] if rs is None else rs
+            all_recs.append(a)
             a["rec"]["st0"] = _observe(a, start, start + timedelta(seconds=j * dt),
                                        cal.ms_between(app.clock.datetime_epoch, start))
             agents.append(a)
@@ -234,7 +268,8 @@ def _run_sites(task):
 
         app.stepForward = traced_step                  # wrapper on the instance, no source hook
         done = 0
-        for stop in sorted({j for _, _, _, j, _ in late if j < nsteps}) + [nsteps]:
+        moves = [(sc, site, r) for sc, site, r, j in zip(sensors, sites, readd, joins) if r > 0 and j == 0 and r < nsteps]
+        for stop in sorted({j for _, _, _, j, _ in late if j < nsteps} | {r for _, _, r in moves}) + [nsteps]:
             if stop > done:
                 su.run_for(app, (stop - done) * dt)    # public Scenario.propagateTo
                 done = stop
@@ -244,9 +279,18 @@ def _run_sites(task):
                 if j == stop:
                     app.addSensor(o, engine_id)        # public call with the config OBJECT, clock at start + j*dt
                     enrol(agent_id, site, j, r)
+            for sc, site, r in moves:
+                if r == stop:                          # the same id moves: removed, then added again at another site
+                    app.removeSensor(sc["id"], engine_id)
+                    agents[:] = [a for a in agents if a["rec"]["agent_id"] != sc["id"]]
+                    sc2 = copy.deepcopy(sc)
+                    site2 = _other_site(site)
+                    sc2["state"] = {"type": "lla", "latitude": site2[0], "longitude": site2[1], "altitude": site2[2]}
+                    app.addSensor(SensingAgentConfig(**sc2), engine_id)
+                    enrol(sc["id"], site2, r, 0, rs=1)
         db = app.database
         iso_of = {float(e.julian_date): e.timestampISO for e in db.getData(Query(Epoch))}
-        for a in agents:
+        for a in all_recs:
             rows = db.getData(Query(TruthEphemeris).filter(TruthEphemeris.agent_id == a["rec"]["agent_id"]))
             for r in rows:
                 iso = iso_of.get(float(r.julian_date))
@@ -259,7 +303,7 @@ def _run_sites(task):
                     continue                           # the row of the start / join epoch, or not on a step
                 ecef = eci2ecef(np.asarray(r.eci, dtype=float), start + timedelta(seconds=(j + a["join"]) * dt))
                 a["rec"]["st"][j - 1]["dbDispMm"] = cal.cap(float(np.linalg.norm(ecef[:3] - a["x"][:3])) * 1e6)
-        out["agents"] = [a["rec"] for a in agents]
+        out["agents"] = [a["rec"] for a in all_recs]
         out["steps_taken"] = k[0]
         if "tz" in task:     # what the environment of this process really is (evidence, not an oracle)
             import os
@@ -395,8 +439,12 @@ def _tasks(ctx: Ctx, site_cfgs, mids, rng):
                 for q in range(len(sites) - 1, max(0, len(sites) - (2 if ctx.quick else 3)), -1):
                     joins[q] = jclasses[(sec + j + ti + q) % len(jclasses)]
                 # config objects: fresh, or already converted by a scenario with another start (classes by TLC)
-                rclasses = sorted({c["reused"] for c in classes})
-                reused = [rclasses[(sec + j + ti + q) % len(rclasses)] for q in range(len(sites))]
+                hclasses = sorted({(c["reused"], c["resited"]) for c in classes})     # process histories
+                hist = [hclasses[(sec + j + ti + q) % len(hclasses)] for q in range(len(sites))]
+                reused, resited = [h[0] for h in hist], [h[1] for h in hist]
+                readd = [0] * len(sites)
+                if (sec + j + ti) % 3 == 0:          # the first site's id moves to another site after 1-2 steps
+                    readd[0] = 1 + (sec + j) % 2
                 nsteps = key[2] + max(joins)
                 total = dt * nsteps
                 if ti == 0:      # a start in the middle of the day before the boundary
@@ -409,7 +457,8 @@ def _tasks(ctx: Ctx, site_cfgs, mids, rng):
                         minutes -= 1
                     t0 = mid - timedelta(minutes=minutes) + timedelta(seconds=sec)
                 tasks.append({"id": len(tasks), "start": cal.fmt(t0), "dt": dt, "steps": nsteps,
-                              "sites": sites, "joins": joins, "reused": reused, "boundary": kind,
+                              "sites": sites, "joins": joins, "reused": reused, "resited": resited, "readd": readd,
+                              "boundary": kind,
                               "crosses": t0 < mid <= t0 + timedelta(seconds=total), "theta0": theta})
     # long runs (hours to a day, always crossing a midnight): elapsed times beyond the bound TLC explored
     all_lons = sorted({c["lon"] for c in site_cfgs})
@@ -524,7 +573,7 @@ def _project(task, rec, idx):
     st0 = dict(rec["st0"])
     st0["jdOk"] = idx.jd_ok(st0.pop("jd"), start + timedelta(seconds=join * task.get("dt", 0)))
     return {"startSec": start.second, "dt": task.get("dt", 1), "plan": plan[:len(st)], "db": 0 if "plan" in rec else (2 if join else 1),
-            "join": join, "reused": rec.get("reused", 0), "tz": rec.get("tz", "UTC"), "invMs": rec["invMs"], "st0": st0, "st": st}
+            "join": join, "reused": rec.get("reused", 0), "resited": rec.get("resited", 0), "tz": rec.get("tz", "UTC"), "invMs": rec["invMs"], "st0": st0, "st": st}
 
 
 def _validate(ctx: Ctx, items, idx):
@@ -575,6 +624,8 @@ def _validate(ctx: Ctx, items, idx):
             how += ", config object already used for a scenario starting 6 h 17 min 43 s earlier"
         if rec.get("tz"):
             how += f", host time zone TZ={rec['tz']}"
+        if rec.get("resited", 0):
+            how += ", same sensor id used before for a facility at another site (same start instant / removed and re-added)"
         mode = "agent" if "plan" in rec else "scenario"
         for inv in sorted(invs):
             ctx.violation(SIG_OF_INV.get(inv, inv),
@@ -583,13 +634,13 @@ def _validate(ctx: Ctx, items, idx):
                           f"{worst / 1000:.1f} m over {len(tr['st'])} steps)",
                           {"mode": mode, "start": task["start"], "dt": task.get("dt"), "steps": task.get("steps"),
                            "plan": rec.get("plan"), "sites": [rec["site"]], "join": rec.get("join", 0),
-                           "reused": rec.get("reused", 0), "tz": rec.get("tz"), "trace": tr})
+                           "reused": rec.get("reused", 0), "resited": rec.get("resited", 0), "tz": rec.get("tz"), "trace": tr})
     ctx.traces_validated += len(traces)
     return accepted, rejected, traces
 
 
 def _mutant_invert(workdir):
-    base = (tlc.SPEC_DIR / "GroundSite_quick.cfg").read_text().replace("INVARIANT Emit\n", "")
+    base = (tlc.SPEC_DIR / "GroundSite_quick.cfg").read_text().replace("INVARIANT Emit\n", "").replace("INVARIANT SiteFromCurrentConfig\n", "")
     cfg = base.replace("InvertStartBySecTruncation = FALSE", "InvertStartBySecTruncation = TRUE")
     for name in ("StartInversionExact", "SiteEpochAgrees"):      # (they fail first; the point is SiteFixed)
         cfg = cfg.replace(f"INVARIANT {name}\n", "")
@@ -602,7 +653,7 @@ def _mutant_invert(workdir):
 
 
 def _mutant_join(workdir):
-    base = (tlc.SPEC_DIR / "GroundSite_quick.cfg").read_text().replace("INVARIANT Emit\n", "")
+    base = (tlc.SPEC_DIR / "GroundSite_quick.cfg").read_text().replace("INVARIANT Emit\n", "").replace("INVARIANT SiteFromCurrentConfig\n", "")
     res = tlc.run_tlc("GroundSite", base.replace("CaptureAtJoinEpoch = FALSE", "CaptureAtJoinEpoch = TRUE"), workdir,
                       workers=1, timeout=600)
     tlc.require_ok(res, "GroundSite (site captured at the join epoch)")
@@ -613,7 +664,7 @@ def _mutant_join(workdir):
 
 
 def _mutant_cache(workdir):
-    base = (tlc.SPEC_DIR / "GroundSite_quick.cfg").read_text().replace("INVARIANT Emit\n", "")
+    base = (tlc.SPEC_DIR / "GroundSite_quick.cfg").read_text().replace("INVARIANT Emit\n", "").replace("INVARIANT SiteFromCurrentConfig\n", "")
     res = tlc.run_tlc("GroundSite", base.replace("CacheIgnoresEpoch = FALSE", "CacheIgnoresEpoch = TRUE")
                       .replace("INVARIANT ConvertIgnoresHistory\n", ""), workdir, workers=1, timeout=600)
     tlc.require_ok(res, "GroundSite (conversion memoised on the config object)")
@@ -623,8 +674,19 @@ def _mutant_cache(workdir):
     return {"GroundSite.CacheIgnoresEpoch": killed_cache}
 
 
+def _mutant_memo(workdir):
+    base = (tlc.SPEC_DIR / "GroundSite_quick.cfg").read_text().replace("INVARIANT Emit\n", "").replace("INVARIANT SiteFromCurrentConfig\n", "")
+    res = tlc.run_tlc("GroundSite", base.replace("MemoIgnoresSite = FALSE", "MemoIgnoresSite = TRUE")
+                      .replace("INVARIANT SiteFromCurrentConfig\n", ""), workdir, workers=1, timeout=600)
+    tlc.require_ok(res, "GroundSite (dynamics memo keyed without the location)")
+    killed = sorted({v[0] for v in res.invariant_violations})
+    if "SiteFixed" not in killed:
+        raise tlc.MachineryError("GroundSite.tla: a dynamics memo that ignores the site does not violate SiteFixed (vacuous spec)")
+    return {"GroundSite.MemoIgnoresSite": killed}
+
+
 def _mutant_zone(workdir):
-    zcfg = (tlc.SPEC_DIR / "GroundSite_zones_quick.cfg").read_text().replace("INVARIANT Emit\n", "")
+    zcfg = (tlc.SPEC_DIR / "GroundSite_zones_quick.cfg").read_text().replace("INVARIANT Emit\n", "").replace("INVARIANT SiteFromCurrentConfig\n", "")
     res = tlc.run_tlc("GroundSite", zcfg.replace("LocalTimeEpoch = FALSE", "LocalTimeEpoch = TRUE")
                       .replace("INVARIANT SiteEpochAgrees\n", ""), workdir, workers=1, timeout=600)
     tlc.require_ok(res, "GroundSite (epochs built through the host's local time)")
@@ -673,7 +735,7 @@ def run(ctx: Ctx):
     tz_pools = {tz: mp.get_context("spawn").Pool(1 if ctx.quick else 2, initializer=_init_tz_worker, initargs=(tz,))
                 for tz in tzs}
     try:
-        with ThreadPoolExecutor(9) as ex:
+        with ThreadPoolExecutor(10) as ex:
             f_zone = ex.submit(tlc.run_tlc, "GroundSite",
                                "GroundSite_zones_quick.cfg" if ctx.quick else "GroundSite_zones_thorough.cfg",
                                ctx.sub("zones"), workers=2, timeout=1500)
@@ -685,7 +747,8 @@ def run(ctx: Ctx):
             f_cal = ex.submit(cal.run_seconds, "Calendar_c11.cfg", ctx.sub("cal"), max(2, ctx.cpus // 4))
             # non-vacuity of GroundSite.tla: each named deviation must be refuted by TLC
             f_muts = [ex.submit(_mutant_invert, ctx.sub("mutant_invert")), ex.submit(_mutant_join, ctx.sub("mutant_join")),
-                      ex.submit(_mutant_cache, ctx.sub("mutant_cache")), ex.submit(_mutant_zone, ctx.sub("mutant_zone"))]
+                      ex.submit(_mutant_cache, ctx.sub("mutant_cache")), ex.submit(_mutant_zone, ctx.sub("mutant_zone")),
+                      ex.submit(_mutant_memo, ctx.sub("mutant_memo"))]
             site_res = cal.spec_fail(f_site.result(), "GroundSite.tla")
             cal_res, ticks = f_cal.result()
             phase["tlc_specs"] = round(time.time() - t0, 1)
@@ -779,6 +842,7 @@ def run(ctx: Ctx):
                      spec_mutants_killed=killed, phase_done_at_s=phase,
                      late_joining_agent_traces=sum(1 for _t, rec in items if rec.get("join", 0) > 0),
                      agent_traces_from_reused_config_objects=sum(1 for _t, rec in items if rec.get("reused", 0)),
+                     agent_traces_with_resited_id=sum(1 for _t, rec in items if rec.get("resited", 0)),
                      scenarios_under_non_utc_host_zone=len(ztasks),
                      scenarios_crossing_a_daylight_saving_switch=sum(1 for t in ztasks if t["tz_crosses"]),
                      host_time_zones=["UTC"] + tzs)
@@ -803,6 +867,7 @@ def replay(ctx: Ctx, rp: dict):
             t["sites"] = [(LATS[1], 10.0, ALTS[1])] + t["sites"]
             t["joins"] = [0] + [rep["join"]] * (len(t["sites"]) - 1)
         t["reused"] = [rep.get("reused", 0)] * len(t["sites"])
+        t["resited"] = [rep.get("resited", 0) if not rep.get("join", 0) else 0] * len(t["sites"])
         if rep.get("tz") and rep["tz"] != "UTC":
             t["tz"] = rep["tz"]
             with mp.get_context("spawn").Pool(1, initializer=_init_tz_worker, initargs=(rep["tz"],)) as zp:
